@@ -80,6 +80,8 @@ def run(repo, rep, tier):
     keybinding_tokeniser_rule(repo, rep)
     real_key_text_rule(repo, rep)
     printed_prefix_rule(repo, rep)
+    from .c13 import no_memoised_parsers
+    no_memoised_parsers(repo, rep, 'C07.R10', OBJ)
     inm = repo.cls(OBJ, 'CIMInstanceName')
     cnm = repo.cls(OBJ, 'CIMClassName')
 
